@@ -919,6 +919,25 @@ func c08ChainOracle(c *Ctx, base string) {
 				continue
 			}
 			batch = batch[:recs[len(recs)-1].end] // what the reader can see; anything behind is not part of the promotion
+			// the batch of promotion h must hold exactly: block h, height index h, the accounts block h changes
+			if batchStart >= 0 {
+				real, _, _, _ := store.VerifScanFile(filepath.Join(snaps[h], "tmp.data"))
+				var got, want []string
+				for ri, r := range real {
+					if ri >= batchStart {
+						got = append(got, fmt.Sprintf("%d:%x", r.Flg, r.Key))
+					}
+				}
+				want = append(want, fmt.Sprintf("%d:%x", leveldb.ItemFlagBlock, w.Blocks[h].Hash().Bytes()), fmt.Sprintf("%d:%x", leveldb.ItemFlagBlockHeight, leveldb.EncodeNumber(uint32(h))))
+				for _, a := range w.Changes[h] {
+					want = append(want, fmt.Sprintf("%d:%x", leveldb.ItemFlagAct, a.Address.Bytes()))
+				}
+				sort.Strings(got)
+				sort.Strings(want)
+				if strings.Join(got, ",") != strings.Join(want, ",") {
+					c08Fail(c, "c08/batch-content", fmt.Sprintf("promotion %d: the batch in tmp.data holds the keys %v, the promotion must write exactly %v", h, got, want), nil)
+				}
+			}
 			if batchStart < 0 {
 				batchStart = 0
 			}
